@@ -347,3 +347,14 @@ def guarded_values(ff, flow, defs):
         base = [(txt(e), pol) for kind, e, pol in guards.path_conditions(ff.node, d.stmt) if kind == "if"] if d.stmt is not None else []
         split(base, d.value)
     return out
+
+
+def case_of(ss, ff, flow, atom, tag: str):
+    """(FuncFacts, Flow) of `ff` specialised to one case (see guards.specialise): the function as it behaves when the
+    assumption `atom` holds.  Nested functions keep working because the copy keeps the original qualified name."""
+    from ..core import guards
+    from ..core.defuse import Flow
+    from ..core.pyfacts import FuncFacts
+    node = guards.specialise(ff.node, flow, atom)
+    ff2 = FuncFacts(ff.module, ff.qualname, node, ff.cls, ff.parent_func, list(ff.decorators))
+    return ff2, Flow(ff2, flow.outer)
